@@ -204,7 +204,8 @@ def drive(tier):
                 stream(frames[other][0] + small[0], "other-chain-magic")
         # faults on small frames: every single-byte corruption, every truncation, length overrides
         nf = 3 if tier == "quick" else 25
-        for b in r.sample(small, min(nf, len(small))):
+        empties = [b for b in small if len(b) == 24][:2]          # empty-payload frames (verack, getaddr, mempool) always take part
+        for b in empties + r.sample(small, min(nf, len(small))):
             follow = r.choice(small)
             for i in range(len(b)):
                 for delta in ((1,) if (tier == "quick" and i >= 24 and i % 3) else (1, 0x80)):
